@@ -279,7 +279,7 @@ CHECKS["C08"] = {
     "note": "KNOWN FINDINGS on the unchanged tree (bounded stand-in, known_findings.json): S23 a follower keeps serving keys the installed snapshot no longer holds (components merge, nothing is cleared); "
             "S24 a follower whose log ends before the snapshot refuses every entry behind it (delete_through None mapped to SplitOff(0), pointer range put in front of the open log). "
             "Assumed: A-WAIT (actix runs the waited future and its map closure before the next message; checked that nothing effectful follows the chain), A-ACTOR (what a component does with a record: bounded only), "
-            "SnapshotReader's contract (header / records / readability as uninterpreted functions of the file image), the snapshot transfer itself (async-raft chunk stream, network), FileStore::finalize_snapshot_installation's "
+            "A-SNAPIMAGE (the installed file is a snapshot image as SnapshotWriterActor writes it: length prefixes fit 32 bits), the snapshot transfer itself (async-raft chunk stream, network), FileStore::finalize_snapshot_installation's "
             "message order, RaftSnapshotManager::install_snapshot (catalogue) and RaftLogManager (pointer log) — bounded stand-in only; several processes: not modelled (two actor sets in one process).",
     "design_ref": "DESIGN.md §0.10",
     "technique": "contract-based deductive verification (Verus) of functions extracted verbatim from /repo on every run; actor future chains lambda-lifted mechanically (T20); bounded native stand-in for the served state",
@@ -288,3 +288,8 @@ CHECKS["C01"]["text"] += (" Third build round: the start-up chain itself is unde
                           "snapshot, every record of the file it names goes to the component that owns its tree in file order, then ONE replay request for exactly [snapshot_next_index, last_applied_log + 1) with a loader "
                           "wired to this node's components, then the end-of-loading announcements, nothing else.")
 CHECKS["C07"]["text"] += " Third build round: StateApplyManager::load_log (the replay request names exactly the entries behind the snapshot) is under contract (T20)."
+
+CHECKS["C08"]["text"] += (" The reader of the installed file is under contract as well (unit snapshot, real SnapshotReader::{init_by_file, get_header, read_record}): for EVERY chunking of the file by `read` the header is "
+                          "the decoded first frame and read_record yields the decoded frames behind it in order, up to the first zero length / incomplete frame; a fault-free, fully decodable image is read to its end. "
+                          "Unit raftdata ASSUMES exactly the clause text that unit snapshot PROVES (compared on every run).")
+CHECKS["C01"]["text"] += (" The snapshot file reader (unit snapshot: SnapshotReader::{init, get_header, read_record}) is under contract for every chunking of the file; the start-up chain assumes exactly the clause text proved there.")
